@@ -242,6 +242,8 @@ class Policy:
         self.no_inline = set(no_inline)
         self.effects = effects        # predicate(path) or iterable of regex
         self.max_depth = max_depth
+        self.demoted = set()          # helpers that stopped being looked through after a world explosion (see Evaluator.run)
+        self.inlined_queries = {}     # canonical path -> branch weight of read-only same-file helpers that were inlined
 
     def is_effect(self, path):
         if callable(self.effects):
@@ -361,10 +363,16 @@ def local_policy(F, root, events=(), keep=(), also_inline=(), public_events=Fals
             return False
         return not any('&mut' in (prm.get('ty') or '') or "mut " in (prm.get('ty') or '')[:12] for prm in h.get('params', []))
 
+    def read_only(p):
+        h = F.hir.get(p)
+        return bool(h) and not any('&mut' in (prm.get('ty') or '') or 'mut ' in (prm.get('ty') or '')[:12] for prm in h.get('params', []))
+
     def is_event(p):
         if any(r.search(p) for r in ev):
             return True
         p = canon_path(p)
+        if p in pol.demoted:
+            return True
         if small_foreign(p):
             return False
         # with public_events, the crate's public API (and everything outside the crate except std) is the
@@ -391,12 +399,16 @@ def local_policy(F, root, events=(), keep=(), also_inline=(), public_events=Fals
             return False
         # a helper is glue; a function with a large decision structure of its own is a step, not glue
         return '{closure' in p or (branch_count(F, p) <= max_branches and not typed_step(p))
-    return Policy(effects=is_event, inline=inline, **kw)
+    pol = Policy(effects=is_event, inline=inline, **kw)
+    return pol
 
 
 PANIC_FNS = ('std::panicking::', 'std::rt::begin_panic', 'std::rt::panic_fmt', 'std::process::abort',
              'std::option::unwrap_failed', 'std::result::unwrap_failed', 'std::option::expect_failed',
              'std::rt::panic_display', 'std::intrinsics::unreachable', 'std::intrinsics::abort')
+
+
+SOFT_WORLDS = 600
 
 
 class Evaluator:
@@ -422,11 +434,32 @@ class Evaluator:
         return self.run(thunk, assumptions)
 
     def run(self, thunk, assumptions=None):
+        """all worlds of `thunk`.  When the exploration explodes and the policy has looked through read-only helper
+        functions written next to the root (queries: every parameter a shared reference), the one with the largest
+        decision structure is made a step of its own (an opaque, recorded call) and the evaluation starts over: such a
+        helper cannot change what the caller holds, only its result matters."""
+        for _ in range(4):
+            try:
+                return self.run_once(thunk, assumptions)
+            except EvalError as e:
+                pol = self.policy
+                cands = {p: w for p, w in getattr(pol, 'inlined_queries', {}).items() if p not in pol.demoted and w >= 4}
+                if 'too many worlds' not in str(e) or not cands:
+                    raise
+                pol.demoted.add(max(sorted(cands), key=lambda p: cands[p]))
+        return self.run_once(thunk, assumptions)
+
+    def run_once(self, thunk, assumptions=None):
         worlds = []
         stack = [list(assumptions or [])]
         while stack:
             if len(worlds) + len(stack) > self.max_worlds:
                 raise EvalError('too many worlds')
+            if len(worlds) + len(stack) > SOFT_WORLDS and any(w >= 10 and q not in self.policy.demoted
+                                                              for q, w in self.policy.inlined_queries.items()):
+                # a large read-only helper is being looked through and the exploration is already big: stop early,
+                # run() makes that helper a step of its own and starts over
+                raise EvalError('too many worlds (early)')
             asm = stack.pop()
             st = State(self, asm)
             try:
@@ -659,7 +692,13 @@ class State:
         is_eff = self.policy.is_effect(norm_path(target))
         if norm_path(target) in self.policy.stubs:
             return self.policy.stubs[norm_path(target)](self, args, node)
+        if target in self.policy.demoted:
+            is_eff = True
         if target in self.f.hir and not is_eff and self.policy.should_inline(target, self.depth):
+            if '{closure' not in target and target not in self.policy.inlined_queries and self.depth > 0:
+                h = self.f.hir[target]
+                if not any('&mut' in (prm.get('ty') or '') or 'mut ' in (prm.get('ty') or '')[:12] for prm in h.get('params', [])):
+                    self.policy.inlined_queries[target] = branch_count(self.f, target)
             return self.call_path(target, args, node)
         if is_eff:
             self.effect('call', norm_path(target), args, node)
